@@ -779,16 +779,25 @@ class Epoch(object):
             raise ValueError("Invalid input data")
         day = int(dd)
         frac = dd % 1
-        if yyyy >= 1:  # datetime's minimum year is 1
+        if yyyy > 1582:  # Gregorian calendar, same rules as datetime
             try:
                 d = datetime.date(yyyy, mm, day)
             except ValueError:
                 raise ValueError("Invalid input date")
             doy = d.timetuple().tm_yday
         else:
-            k = 2 if Epoch.is_leap(yyyy) else 1
+            # Julian calendar (and the reform year 1582): Meeus' formula with
+            # K = 1 for leap years and K = 2 for common years
+            leap = Epoch.is_leap(yyyy)
+            maxdays = [31, 29 if leap else 28, 31, 30, 31, 30,
+                       31, 31, 30, 31, 30, 31]
+            if day > maxdays[int(mm) - 1]:
+                raise ValueError("Invalid input date")
+            k = 1 if leap else 2
             doy = (iint((275.0 * mm) / 9.0)
                    - k * iint((mm + 9.0) / 12.0) + day - 30.0)
+            if yyyy == 1582 and (mm > 10 or (mm == 10 and day >= 15)):
+                doy -= 10.0  # The ten days dropped by the Gregorian reform
         return float(doy + frac)
 
     def doy(self):
@@ -867,14 +876,15 @@ class Epoch(object):
         if isinstance(year, (int, float)) and isinstance(doy, (int, float)):
             frac = float(doy % 1)
             doy = int(doy)
-            if year >= 1:  # datetime's minimum year is 1
+            if year > 1582:  # Gregorian calendar, same rules as datetime
                 ref = datetime.date(year, 1, 1)
                 mydate = datetime.date.fromordinal(ref.toordinal() + doy - 1)
                 return year, mydate.month, mydate.day + frac
             else:
-                # The algorithm provided by Meeus doesn't work for years below
-                # +1. This little hack solves that problem (the 'if' result is
-                # inverted here).
+                # Julian calendar (and the reform year 1582): Meeus' formula
+                # with K = 1 for leap years and K = 2 for common years
+                if year == 1582 and doy > 277:
+                    doy += 10  # The ten days dropped by the Gregorian reform
                 k = 1 if Epoch.is_leap(year) else 2
                 if doy < 32:
                     m = 1
